@@ -76,6 +76,30 @@ def eval_single(case):
 
 EVALUATORS = {"pair": eval_pair, "single": eval_single}
 
+import re as _re
+_CACHE = _re.compile(r"(?:\.ampproject\.org/[cv]/(?:s/)?|bc\.marfeelcache\.com/amp/|bc\.marfeel\.com/)", _re.I)
+_DOTSEG = _re.compile(r"(?:^|/)(?:\.|%2e){1,2}(?=/|$|[?#])", _re.I)
+
+
+def _cache_tail_dots(case):
+    u = case.get("u", "")
+    m = _CACHE.search(u)
+    return bool(m and _DOTSEG.search(u[m.end():]))
+
+
+def _neutralise_cache_dots(case):
+    u = case["u"]
+    m = _CACHE.search(u)
+    tail = u[m.end():]
+    prev = None
+    while prev != tail:
+        prev = tail
+        tail = _DOTSEG.sub("", tail, count=1)
+    return dict(case, u=u[:m.end()] + tail)
+
+
+TRIGGERS = {"cache-tail-with-dot-segment": (_cache_tail_dots, _neutralise_cache_dots)}
+
 OPTS = st.fixed_dictionaries({"quoted": st.booleans(), "platform_aware": st.sampled_from([False, False, True]), "strip_suffix": st.sampled_from([False, False, True])})
 
 
@@ -117,6 +141,14 @@ def _pairs(draw, tier):
 def _singles(tier):
     s = st.one_of(G.url_structs(max_segments=3, max_items=3), N.norm_structs(dirty=True, platform_hosts=True), N.norm_structs(dirty=False))
     return st.tuples(s, OPTS).map(lambda v: {"kind": "single", "u": _fix_edges(G.serialise(v[0])), "options": v[1]})
+
+
+def _cache_wrapped(tier):
+    inner = st.tuples(st.sampled_from(["www.site.net", "site.co.uk", "m.example.org"]),
+                      st.lists(st.sampled_from(["a", "b", "..", ".", "%2e%2e", "%2E", "x1", ""]), max_size=4),
+                      st.sampled_from(["", "/", "?x=1", "#section", "/?b=2&a=1"]))
+    pre = st.sampled_from(["http://x.cdn.ampproject.org/c/s/", "https://x.cdn.ampproject.org/v/s/", "http://bc.marfeelcache.com/amp/", "https://bc.marfeel.com/"])
+    return st.tuples(pre, inner, OPTS).map(lambda v: {"kind": "single", "u": v[0] + v[1][0] + "".join("/" + x for x in v[1][1]) + v[1][2], "options": v[2]})
 
 
 def _pair_nt(case):
@@ -178,6 +210,9 @@ def campaigns(tier, seed):
                  bounds="5 pair families (spelling on dirty / normalize-oriented URLs, irrelevant on clean / normalize-oriented / platform bases), 1-3 composed transformations x 12 option sets"),
         Campaign("composition-grammar", hyp_campaign(_singles, lambda v: v, lambda c: c.pop("_changed", True), lambda c: ["opt:" + k for k, v in c["options"].items() if v],
                                                      examples=(700, 15000), lazy_nontrivial=True), "hypothesis", bounds="dirty grammar / normalize-oriented URLs x 12 option sets"),
+        Campaign("composition-cache-wrapped", hyp_campaign(_cache_wrapped, lambda v: v, lambda c: c.pop("_changed", True), lambda c: ["cache-wrapped"],
+                                                           examples=(150, 3000), lazy_nontrivial=True), "hypothesis",
+                 bounds="AMP / Marfeel cache prefixes + host + <=4 segments incl. dot segments + tails x 12 option sets"),
         Campaign("composition-token-sweep", _sweep, "enumeration", exhaustive=True,
                  bounds="every token%s in six positions of a carrier URL x 4 option sets" % ("" if quick else " and ordered token pair (rotating option sets)"),
                  params={"pairs": not quick}),
